@@ -217,7 +217,7 @@ theorem stepCore_scan (cfg : Cfg) (keyOf : Pkt → κ) (F : Follower κ) (p : Pk
           by_cases h : startable cfg p = true
           · exact h
           · simp [h] at ht
-        simp only [Option.isNone_none, Bool.true_and, hst, if_true, Option.isSome_none, List.cons_append, List.nil_append,
+        simp only [Option.isNone_none, hst, if_true, Option.isSome_none, List.cons_append, List.nil_append,
           liveAfter, bracketed, scan1, Ev.isNew, Ev.isUse, decide_true, Bool.not_false, Bool.and_self, Bool.false_eq_true, if_false,
           h1, h2]
         cases erasedNow cfg s p <;> simp
